@@ -448,7 +448,30 @@ def call_builtin(models, eng, name, args, kws, st, node):
                 return [(st, st.alloc(OBytearray(b.arr, b.len), 'bytearray'))]
         raise OutOfReach('bytearray(%r)' % (a0,))
     if name in ('binascii.hexlify', 'binascii.unhexlify'):
-        return [(st, eng.fresh_bytes(st, 'hex'))]
+        b = models.as_bytes(eng, a0, st)
+        if b is None and isinstance(a0, VDyn):
+            # a dynamic value: bytes, or TypeError
+            def go_hex(st1):
+                return call_builtin(models, eng, name, [eng.dyn_bytes(a0, st1)] + list(args[1:]), kws, st1, node)
+            return eng.typed(st, t.app('(_ is VBytes)', t.BOOL, a0.t), go_hex, '%s(non-bytes)' % name)
+        if b is None:
+            raise OutOfReach('%s(%r)' % (name, a0))
+        r = eng.fresh_bytes(st, 'hex')
+        if name == 'binascii.hexlify':
+            # total on bytes: two digits per byte
+            st.assume(t.eq(r.len, t.mul(I(2), b.len)))
+            return [(st, r)]
+        # unhexlify accepts only an even number of hexadecimal digits; anything else is binascii.Error (a ValueError)
+        from . import prelude as _pl
+        _pl.declare_fun('is_hex', [t.ARR, t.INT, t.INT], t.BOOL)
+        good, bad = eng.fork(st, t.and_(t.app('is_hex', t.BOOL, b.arr, b.off, b.len), t.eq(t.pymod(b.len, I(2)), t.ZERO)))
+        out = []
+        if good is not None:
+            good.assume(t.eq(t.mul(I(2), r.len), b.len))
+            out.append((good, r))
+        if bad is not None:
+            out.extend(eng.raise_(bad, 'ValueError', origin='binascii.unhexlify of a string that is not hexadecimal'))
+        return out
     if name in ('str', 'repr', 'hex', 'format'):
         if name == 'str' and isinstance(a0, VStr):
             return [(st, a0)]
